@@ -2041,6 +2041,9 @@ func RunRoute(s *simrt.Sim, prof RouteProfile) *Result {
 			res.Violations = w.viol
 		}
 		res.Nontrivial = w.msgsToTgt > 0 && w.acksToSrc > 0 && (!prof.Faults || w.anyFault)
+		if s.Stats.SpinReliefs > 0 {
+			s.Probe("spin-relief-in-tail")
+		}
 		return res
 	}
 	// phase 0: chaos
@@ -2053,6 +2056,9 @@ func RunRoute(s *simrt.Sim, prof RouteProfile) *Result {
 	w.phase = 1
 	w.tailStart = s.Now()
 	s.SetFair(true)
+	// a goroutine of the proxy that spins without ever blocking must not stop the clock and
+	// the clusters: every 1000 task steps without either, one environment step and 1 virtual s
+	s.SetSpinRelief(1000, time.Second)
 	s.ExtendBudget(400000, 120*time.Second)
 	s.Run(w)
 	if s.Crashed() != nil {
